@@ -18,6 +18,9 @@ class FakeSpa:
             self.struct = GeckoStructure(self._sv)
         self.is_responding_to_pings = True
         self.is_connected = True
+        self.is_in_error = False
+        self.isopen = True
+        self.on_connected = None
         self.descriptor = type("D", (), {"name": "Spa", "identifier_as_string": "SPA01:02:03:04:05:06"})()
 
     def _sv(self, pos, length, value):
